@@ -502,6 +502,11 @@ JudgeMultiget(ev, post, i) ==
                (IF a.found /\ it.oc \in Colls(post) /\ it.n \in DOMAIN post.colls[it.oc].members
                    /\ a.e # post.colls[it.oc].members[it.n].e
                   THEN Viol("C02", [w |-> "multiget-etag-differs-from-getetag", item |-> it, a |-> a], i) ELSE {})
+          [] it.cls = "dotpath" ->
+               \* another spelling (dot segment, doubled slash) of a member's path: it may be
+               \* resolved or refused, but data served for it is that member's data
+               (IF a.hasdata /\ ~(live /\ a.e = ms[it.n].e /\ a.xn = ms[it.n].xn)
+                  THEN Viol("C17", [w |-> "wrong-data-for-a-respelled-href", item |-> it, a |-> a], i) ELSE {})
           [] OTHER ->
                (IF a.hasdata
                   THEN Viol("C17", [w |-> "data-served-for-unresolvable-href", item |-> it, a |-> a], i) ELSE {})
